@@ -185,7 +185,9 @@ def keyblob(rep, prog):
         outs = Interp(prog, sc).run(fi)
         rep.analysed['paths'] += len(outs)
         PT, args = _symdecrypt(prog, outs, 'PrivKey.decrypt_keyblob')
-        rep.check(args == ['self.encbytes', 'self.s2k.derive_key(%s)' % pw, 'self.s2k.encalg', 'self.s2k.iv'], 'C04.4',
+        dk = [c for s in outs for c in s.calls if c[0] == 'self.s2k.derive_key' and list(c[1]) + list(c[2].values()) == [pw]]
+        rep.check(args is not None and len(args) == 4 and [args[0]] + args[2:] == ['self.encbytes', 'self.s2k.encalg', 'self.s2k.iv'] and
+                  any(call_text(c) == args[1] for c in dk), 'C04.4',
                   'PrivKey.decrypt_keyblob', 'plaintext = %s' % PT,
                   'the stored ciphertext must be decrypted with the key derived from the passphrase, the stored cipher and IV',
                   where=fi.where, found=PT, scenario='usage %d' % usage)
